@@ -457,6 +457,24 @@ pub fn lock_sk(sk: &[u8; 32], password: &[u8], salt: &[u8; 32]) -> String {
     b64(&blob)
 }
 
+
+/// A conforming locked key (with its private key) whose 84-byte blob ENDS in `zeros` zero bytes: found by trying
+/// private keys under one derived key (one scrypt call), since the last blob bytes are the AEAD tag.
+pub fn lock_sk_with_zero_tail(password: &[u8], salt: &[u8; 32], zeros: usize, mut next: impl FnMut() -> [u8; 32]) -> Option<(String, [u8; 32])> {
+    let key = pass_key(password, salt);
+    for _ in 0..40_000_000u32 {
+        let sk = next();
+        let ct = ossl::aead_seal(&key, &[0u8; 12], &SK_MAGIC, &sk);
+        if ct[ct.len() - zeros..].iter().all(|b| *b == 0) {
+            let mut blob = SK_MAGIC.to_vec();
+            blob.extend_from_slice(salt);
+            blob.extend_from_slice(&ct);
+            return Some((b64(&blob), sk));
+        }
+    }
+    None
+}
+
 pub fn unlock_blob(blob: &[u8], password: &[u8]) -> Result<[u8; 32], &'static str> {
     if blob.len() != 84 {
         return Err("length");
